@@ -22,7 +22,7 @@ TT = ["bearer", "Bearer", "BEARER", "bEaReR", "mac", "MAC", "Mac", "dpop", "DPoP
       "ÉCLAIR", "Schlüssel", "SCHLÜSSEL", "ÀÞ×ß", "ПРИВЕТ", "Ёж", "ΑΒΓΩ", "αβγ", "ÉÉ-Ö_Ü", "ǅwt", "ǄWT", "ǈ", "ǋǊ", "ǲ-ǱX"]
 # scope strings: the ONLY separator is the space character; every other character (comma, plus, semicolon, tab,
 # line feed, NBSP, ...) is part of a scope token
-SCOPE_VALUES = ["", "a", "read write", "a  b", " a", "a ", "openid profile email", None, "é 日本", "a\tb", "a,b", "urn:acme:doc,rw", ",", "a,b c,d",
+SCOPE_VALUES = ["openid profile openid", "read read", "a  b  c", "x x x", "\u00e9 \u00e9", "", "a", "read write", "a  b", " a", "a ", "openid profile email", None, "é 日本", "a\tb", "a,b", "urn:acme:doc,rw", ",", "a,b c,d",
                 "a+b", "a;b", "a|b", "a\nb", "a\u00a0b", "a%20b", "a\u3000b", "a\rb", "repo,user", "read:org,write:org", "a,", ",a", "a\u2003b", "https://x/y?z=1&w=2"]
 UNKNOWN_NAMES = ["foo", "id", "x", "Access_Token", "access-token", "expires", "scopes", "data", "é", "", "active2", "error", "error_description"]
 URLS_VALID = ["https://verify/here", "https://example.com/device?x=1", "HTTPS://EXAMPLE.COM/Dev", "https://exämple.com/ü", "custom:opaque", "https://e/" + "v" * 200,
